@@ -86,6 +86,13 @@ main(void)
 				printf("%d -", rv);
 			}
 			tail();
+		} else if (strcmp(vw[0], "fini") == 0 && vn == 1) {
+			// nni_id_map_fini as the library runs it on its registered (static) maps at nng_fini: the map object
+			// lives on and is used again after the next nng_init; the id cursor must survive (ids are not
+			// reissued before the range wraps)
+			nni_id_map_fini((nni_id_map *) map);
+			printf("0 -");
+			tail();
 		} else if (strcmp(vw[0], "visit") == 0) {
 			uint32_t  cursor = 0;
 			uint64_t  k;
